@@ -59,19 +59,10 @@ Print Assumptions flush_swap_keeps_invariant.
    collection: "every completed handle that no retention update dropped can be opened and all its files exist". It is FALSE
    of the faithful model because of finding D11 (same-process drop of the creating object + collection): witness below. The
    part outside that class is what the correspondence check tests on every run (codes 10-13, 100-103). *)
-Definition checkpoint_exact_full_statement : Prop :=
-  forall ops id, (forall d ids, In (ORetain d ids) ops -> In id ids) ->
-    handle_dir (run (init_world 60 1000) ops) id <> None -> handle_files_exist (run (init_world 60 1000) ops) id = true.
+Definition checkpoint_exact_full_statement : Prop := retained_files_exist_full 60 1000.
 
 Theorem checkpoint_exact_refuted : ~ checkpoint_exact_full_statement.
-Proof.
-  intro H. specialize (H d11_history 1).
-  assert (handle_files_exist (run (init_world 60 1000) d11_history) 1 = true) as E.
-  { apply H.
-    - intros d ids HI. exfalso. cbn in HI. repeat (destruct HI as [HI|HI]; [discriminate|]). exact HI.
-    - destruct retained_files_exist_refuted as [E _]. rewrite E. discriminate. }
-  destruct retained_files_exist_refuted as [_ [E' _]]. rewrite E' in E. discriminate.
-Qed.
+Proof. exact full_statement_refuted. Qed.
 Print Assumptions checkpoint_exact_refuted.
 
 (* non-vacuity: the invariant holds of a new database and a history with rotation, flush and checkpoint is reachable *)
